@@ -8,6 +8,7 @@ import PjrpcModel.Driver.SuiteClient
 import PjrpcModel.Driver.SuiteMocker
 import PjrpcModel.Driver.SuiteHttp
 import PjrpcModel.Driver.SuiteHistory
+import PjrpcModel.Driver.SuiteSpecs
 open Pjrpc.Driver
 
 def handle (line : String) : String :=
@@ -24,6 +25,7 @@ def handle (line : String) : String :=
       | "mocker" => suiteMocker c
       | "http" => suiteHttp c
       | "history" => suiteHistory c
+      | "specs" => suiteSpecs c
       | s => throw s!"unknown suite {s}"
     match r with
     | .ok j => j.compress
